@@ -36,6 +36,7 @@ type cnTxSpec struct {
 	Node     string `json:"node,omitempty"`   // regnode: the node being registered (the signer may be someone else)
 	Runtimes string `json:"runtimes,omitempty"` // regnode: "" (validator only) | "R0" | "R0,R1": compute role for these runtimes
 	Gov      string `json:"gov,omitempty"`     // regruntime: entity | runtime
+	Shape    string `json:"shape,omitempty"`   // regruntime: "g<workers>b<backups>m<max nodes per entity, 0 = unset>p<min pool: workers+this>v<validator-set constraint 0/1>"
 	Validity string `json:"validity"` // ok | badnonce | futurenonce | lowgas | badsig | wrongchain | wrongdomain | malformed | replay
 }
 
@@ -207,6 +208,29 @@ func (n *cnNet) buildTx(spec *cnTxSpec, rng *rand.Rand) ([]byte, error) {
 		}
 		if spec.Gov == "runtime" {
 			rt.GovernanceModel = registry.GovernanceRuntime
+		}
+		if spec.Shape != "" {
+			var g, b, m, p, vs int
+			if _, err := fmt.Sscanf(spec.Shape, "g%db%dm%dp%dv%d", &g, &b, &m, &p, &vs); err == nil {
+				rt.Executor.GroupSize, rt.Executor.GroupBackupSize = uint16(g), uint16(b)
+				cons := func(size int) registry.SchedulingConstraints {
+					c := registry.SchedulingConstraints{MinPoolSize: &registry.MinPoolSizeConstraint{Limit: uint16(size + p)}}
+					if m > 0 {
+						c.MaxNodes = &registry.MaxNodesConstraint{Limit: uint16(m)}
+					}
+					if vs == 1 {
+						c.ValidatorSet = &registry.ValidatorSetConstraint{}
+					}
+					return c
+				}
+				w, bk := cons(g), cons(b)
+				if b == 0 {
+					bk = registry.SchedulingConstraints{MinPoolSize: &registry.MinPoolSizeConstraint{Limit: 0}}
+				}
+				rt.Constraints[scheduler.KindComputeExecutor] = map[scheduler.Role]registry.SchedulingConstraints{
+					scheduler.RoleWorker: w, scheduler.RoleBackupWorker: bk,
+				}
+			}
 		}
 		rt.Genesis.StateRoot.Empty()
 		tx = registry.NewRegisterRuntimeTx(spec.Nonce, fee, rt)
